@@ -3,6 +3,7 @@
 package alephium
 
 import (
+	"os"
 	"bytes"
 	"context"
 	"encoding/hex"
@@ -458,7 +459,10 @@ func runAlph(c aCase, o aOracles) (*vh.Violation, vh.Outcome) {
 		sim.mu.Unlock()
 		if x.K == "reobserve" && len(txs) > 0 {
 			reobs = true
-			t := txs[x.A%len(txs)]
+			t := txs[len(txs)-1] // A < 0: the most recent transaction
+			if x.A >= 0 {
+				t = txs[x.A%len(txs)]
+			}
 			raw, _ := hex.DecodeString(t.id)
 			reqC <- &gossipv1.ObservationRequest{ChainId: uint32(vaa.ChainIDAlephium), TxHash: raw}
 			// requests are handled one after the other: once a later request for an unknown transaction has reached its
@@ -529,6 +533,14 @@ func runAlph(c aCase, o aOracles) (*vh.Violation, vh.Outcome) {
 	}
 	forwarded := map[string]int{}
 	nForwarded := 0
+	if os.Getenv("VERIF_DEBUG") != "" {
+		for _, a := range arrivals {
+			fmt.Printf("DEBUG arrival op=%d reqAt=%d seq=%d tx=%x\n", a.op, a.reqAt, a.m.Sequence, a.m.TxHash[:6])
+		}
+		for _, r := range reqs {
+			fmt.Printf("DEBUG req %d %s -> %d %s\n", r.seq, r.line, r.status, r.resp)
+		}
+	}
 	for _, a := range arrivals {
 		m := a.m
 		txid := hex.EncodeToString(m.TxHash[:])
@@ -647,8 +659,20 @@ func genAlph(t *rapid.T, liveness bool) aCase {
 	if !liveness {
 		kinds = append(kinds, "reobserve", "reobserve", "fault")
 	}
-	op := rapid.Custom(func(t *rapid.T) aOp {
+	if !liveness {
+		kinds = append(kinds, "emit+reobserve", "emit+reobserve")
+	}
+	op := rapid.Custom(func(t *rapid.T) []aOp {
 		k := rapid.SampledFrom(kinds).Draw(t, "k")
+		one := func(o aOp) []aOp { return []aOp{o} }
+		switch k {
+		case "emit+reobserve":
+			// a transaction with several events (messages of different levels, optionally a look-alike of another contract
+			// as its last event), some blocks, then a re-observation request for exactly that transaction
+			return []aOp{{K: "emit", A: rapid.SampledFrom([]int{0, 8, 8, 10, 40, 42}).Draw(t, "a"), B: rapid.SampledFrom([]int{0, 0, 1, 2, 200}).Draw(t, "cl"), C: rapid.IntRange(0, 5).Draw(t, "payload"), D: rapid.IntRange(0, 100).Draw(t, "d")},
+				{K: "advance", A: rapid.IntRange(0, 4).Draw(t, "n")}, {K: "reobserve", A: -1}}
+		}
+		return one(func() aOp {
 		switch k {
 		case "emit":
 			return aOp{K: k, A: rapid.IntRange(0, 63).Draw(t, "a"), B: rapid.OneOf(rapid.IntRange(0, 3), rapid.IntRange(0, 255)).Draw(t, "cl"), C: rapid.IntRange(0, 5).Draw(t, "payload"), D: rapid.IntRange(0, 100).Draw(t, "d")}
@@ -665,9 +689,12 @@ func genAlph(t *rapid.T, liveness bool) aCase {
 		case "pagesize":
 			return aOp{K: k, A: rapid.IntRange(0, 4).Draw(t, "size")}
 		}
-		return aOp{K: "reobserve", A: rapid.IntRange(0, 9).Draw(t, "tx")}
+		return aOp{K: "reobserve", A: rapid.IntRange(-1, 9).Draw(t, "tx")}
+		}())
 	})
-	c.Ops = rapid.SliceOfN(op, 1, 20).Draw(t, "ops")
+	for _, g := range rapid.SliceOfN(op, 1, 20).Draw(t, "ops") {
+		c.Ops = append(c.Ops, g...)
+	}
 	return c
 }
 
